@@ -258,7 +258,7 @@ pub fn generate(seed: u64, thorough: bool, out: &mut dyn FnMut(String)) {
         c.multithread = mt;
         c.workers = w;
         let enc = c.to_encoder().into_verified().unwrap();
-        let data: Vec<i32> = (0..600).map(|_| rng.range(-100, 100) as i32).collect();
+        let data: Vec<i32> = (0..840).map(|_| rng.range(-100, 100) as i32).collect();
         for &bs in &sizes {
             let (e2, d2) = (enc.clone(), data.clone());
             let res = guarded(move || {
@@ -292,7 +292,7 @@ pub fn generate(seed: u64, thorough: bool, out: &mut dyn FnMut(String)) {
             emit(if mt { "encode_mt_rate" } else { "encode_st_rate" }, &[r], res, r > 96000, out);
         }
         // out-of-range sample at several positions
-        for &pos in &[0usize, 127, 128, 300, 599] {
+        for &pos in &[0usize, 127, 128, 300, 839] {
             for &v in &[32768i32, -32769, i32::MAX, i32::MIN] {
                 let (e2, mut d2) = (enc.clone(), data.clone());
                 d2[pos] = v;
